@@ -70,6 +70,8 @@ def run_case(case):
         # another workload class (or another corpus file as it stands) is still reported
         k = case["kind"]
         origin = files[0][0] if k.startswith("corpus") else k.split(":")[0].split("_")[0].rstrip("0123456789")
+        if case.get("cell"):
+            origin += " " + case["cell"]        # enumerated families: the cell itself
         sig = "%s [on %s]" % (sig, origin)
     return {"verdict": VIOLATED, "sig": sig, "detail": detail, "cov": cov,
             "replay": {"files": files, "build": build, "wasm": case.get("wasm", False), "kind": case["kind"],
@@ -160,15 +162,18 @@ def cases(tier, seed):
     #     whole sub-expressions: casts, literals, operations)
     exprs = ["cast x", "cast (x + 1u32)", "[cast x, cast x]", "cast x == cast x", "-cast x", "cast x as u8", "cast cast x", "&cast x",
              "[]", "[[]]", "1", "-1", "1 + 2", "[1, 2]", "[1, 2][0]", "1 == 2", "x as u8 as bool", "|[1, 2]|", "0x10 << 1", "'a' + 1",
-             "\"s\"", "\"s\" \"t\"", "true + 1", "!1", "f(1)", "f(cast x)", "g()", "S { a: 1 }", "S { a: cast x }", "(cast x)", "p", "&p"]
+             "\"s\"", "\"s\" \"t\"", "true + 1", "!1", "f(1)", "f(cast x)", "g()", "S { a: 1 }", "S { a: cast x }", "(cast x)", "p", "&p",
+             # operands that carry an error of their own (undefined name, wrong argument count / type) inside each wrapper
+             "cast nope", "cast f()", "cast f(1, 2)", "cast f(true)", "nope as u8", "f() as u8", "-nope", "!f()", "|nope|", "[nope, 1]",
+             "S { a: nope }", "(f())", "nope + 1", "f(nope)", "f(f())", "nope[0]", "nope.a", "&nope"]
     contexts = ["\tvar y = %s;\n", "\tvar y;\n\ty = %s;\n", "\tif %s == %s\n\t{\n\t}\n", "\tprint!(%s);\n", "\tvar y: u64 = %s;\n",
                 "\tvar y: bool = %s;\n", "\tvar y: []u8 = %s;\n", "\tf(%s);\n", "\tx = %s;\n", "\tvar y: [2]i8 = [%s, 1];\n",
                 "\tvar y = [%s, %s];\n", "\tvar y = S { a: %s };\n", "\tif %s\n\t\tgoto end;\n\tend:\n", "\tvar y = %s as i64;\n"]
     pre = ("struct S\n{\n\ta: i32,\n}\n\nfn f(v: i32) -> i32\n{\n\treturn: v\n}\n\nfn g()\n{\n}\n\nfn main()\n{\n\tvar x: u32 = 5;\n"
            "\tvar p: &u32 = &x;\n")
     for e in exprs:
-        for c in contexts:
-            yield {"kind": "inference", "files": [("infer.pn", pre + c.replace("%s", e) + "}\n")]}
+        for ci, c in enumerate(contexts):
+            yield {"kind": "inference", "files": [("infer.pn", pre + c.replace("%s", e) + "}\n")], "cell": "`%s` in context %d" % (e, ci)}
     # 11. dependency graphs of constants and structures in random declaration order, half of them with a cycle of length 1-5
     for i in range(2000 if quick else 40000):
         g_rng = common.rng_for(seed, PROP, "depgraph", i)
